@@ -1391,11 +1391,36 @@ Proof.
 Qed.
 
 (* ------------------------------------------------------------------ witnesses over binary64
-   (Base/Flt.prim_fops: Coq's primitive floats, evaluated by vm_compute; no axiom is used) *)
+   (Base/Flt.prim_fops: Coq's primitive floats; no axiom is used).  Results are compared
+   through [canon_res], whose type does not mention the float structure: vm_compute on a goal
+   normalises the goal's TYPE as well, and normalising the record prim_fops is very expensive. *)
 From Coq Require Import Floats.
 From KV Require Import Base.Flt.
 
 Definition re_none (pat text : bytes) : res bool := OutOfModel.
+
+Definition canon_res (r : res (value prim_fops)) : option canon :=
+  match r with Ok x => Some (canon_of prim_fops x) | _ => None end.
+
+Notation evp := (eval prim_fops re_none).
+Notation foldp := (fold prim_fops re_none pf_fmt_v).
+
+Ltac compute_site P :=
+  match type of P with
+  | match ?s with Some _ => _ | None => _ end =>
+      let t := eval vm_compute in s in change s with t in P; cbv iota beta in P
+  end.
+Ltac compute_site_goal :=
+  match goal with
+  | |- match ?s with Some _ => _ | None => _ end =>
+      let t := eval vm_compute in s in change s with t; cbv iota beta
+  end.
+Ltac compute_optimize :=
+  match goal with
+  | |- context [Fold.optimize prim_fops re_none pf_fmt_v ?e] =>
+      let t := eval vm_compute in (Fold.optimize prim_fops re_none pf_fmt_v e) in
+      change (Fold.optimize prim_fops re_none pf_fmt_v e) with t
+  end.
 
 (* (float(value) + 1.0) + 1.0 *)
 Definition d15_expr : expr :=
@@ -1405,45 +1430,128 @@ Definition d15_expr : expr :=
 
 Lemma float_reassoc_refuted_lemma :
   wt d15_expr = true /\
-  (exists x x',
-     eval prim_fops re_none "k" "1e16" d15_expr = Ok x /\
-     eval prim_fops re_none "k" "1e16" (fold prim_fops re_none pf_fmt_v d15_expr) = Ok x' /\
-     canon_of prim_fops x' <> canon_of prim_fops x) /\
+  (exists c c',
+     canon_res (evp "k" "1e16" d15_expr) = Some c /\
+     canon_res (evp "k" "1e16" (foldp d15_expr)) = Some c' /\
+     c' <> c) /\
   ~ reassoc_exact prim_fops re_none pf_fmt_v d15_expr "k" "1e16".
 Proof.
   split; [reflexivity|]. split.
-  - exists (VFlt (fo := prim_fops) 1e16%float), (VFlt (fo := prim_fops) 10000000000000002%float).
-    split; [vm_compute; reflexivity|]. split; [vm_compute; reflexivity|].
-    vm_compute. discriminate.
+  - eexists. eexists. split; [vm_compute; reflexivity|]. split; [vm_compute; reflexivity|].
+    discriminate.
   - intros [P _]. unfold d15_expr in P. cbn [pass_exact] in P. destruct P as (_ & _ & P).
     cbn [reorder_exact] in P. destruct P as (_ & _ & P).
-    match type of P with
-    | match ?s with Some _ => _ | None => _ end =>
-        let t := eval vm_compute in s in change s with t in P
-    end.
-    cbv iota beta in P. unfold site_exact in P.
+    compute_site P. unfold site_exact in P.
     specialize (P (VFlt (fo := prim_fops) 1e16%float) (VFlt (fo := prim_fops) 1%float)
-                  (VFlt (fo := prim_fops) 1%float)).
-    assert (H1 : eval prim_fops re_none "k" "1e16" (ECall 0 (EName 0 "float") [EField 6 ValueKW])
-                 = Ok (VFlt (fo := prim_fops) 1e16%float)) by (vm_compute; reflexivity).
-    assert (H2 : eval prim_fops re_none "k" "1e16" (EFloat 15 "1.0")
-                 = Ok (VFlt (fo := prim_fops) 1%float)) by (vm_compute; reflexivity).
-    assert (H3 : eval prim_fops re_none "k" "1e16" (EFloat 21 "1.0")
-                 = Ok (VFlt (fo := prim_fops) 1%float)) by (vm_compute; reflexivity).
-    specialize (P H1 H2 H3 eq_refl). vm_compute in P. discriminate P.
+                  (VFlt (fo := prim_fops) 1%float) eq_refl eq_refl eq_refl eq_refl).
+    apply (f_equal canon_res) in P. vm_compute in P. discriminate P.
 Qed.
 
 (* D14: the literal re-wrapped by the kind of the LEFT operand (the code before the fix)
    turns 3 * 0.5 = 1.5 into the integer literal 1 *)
 Lemma rewrap_by_left_kind_refuted_lemma :
-  exists ret lit x',
-    eval prim_fops re_none "" "" (EBin 2 OMul (ENum 0 "3") (EFloat 4 "0.5")) = Ok ret /\
+  exists ret lit,
+    evp "" "" (EBin 2 OMul (ENum 0 "3") (EFloat 4 "0.5")) = Ok ret /\
     rewrap_by_left_kind prim_fops pf_fmt_v (ENum 0 "3") 0 ret = Some lit /\
-    eval prim_fops re_none "" "" lit = Ok x' /\
-    canon_of prim_fops x' <> canon_of prim_fops ret.
+    lit = ENum 0 "1" /\
+    canon_res (Ok ret) = Some (CFlt (pf_bits 1.5%float)) /\
+    canon_res (evp "" "" lit) = Some (CInt 1).
 Proof.
-  exists (VFlt (fo := prim_fops) 1.5%float), (ENum 0 "1"), (VInt (fo := prim_fops) 1).
-  split; [vm_compute; reflexivity|].
-  split; [vm_compute; reflexivity|]. split; [vm_compute; reflexivity|].
-  vm_compute. discriminate.
+  exists (VFlt (fo := prim_fops) 1.5%float), (ENum 0 "1").
+  split; [reflexivity|]. split; [reflexivity|]. split; [reflexivity|].
+  split; vm_compute; reflexivity.
 Qed.
+
+(* ---- non-vacuity witnesses *)
+
+(* (int(value) + 1) + 2  on the pair (a, 12) *)
+Definition ex_int : expr :=
+  EBin 15 OAdd (EBin 11 OAdd (ECall 0 (EName 0 "int") [EField 4 ValueKW]) (ENum 13 "1")) (ENum 17 "2").
+
+Lemma ex_int_lemma :
+  wt ex_int = true /\
+  reassoc_exact prim_fops re_none pf_fmt_v ex_int "a" "12" /\
+  foldp ex_int = EBin 15 OAdd (ECall 0 (EName 0 "int") [EField 4 ValueKW]) (ENum 13 "3") /\
+  canon_res (evp "a" "12" ex_int) = Some (CInt 15) /\
+  canon_res (evp "a" "12" (foldp ex_int)) = Some (CInt 15).
+Proof.
+  split; [reflexivity|]. split.
+  - split.
+    + unfold ex_int. cbn [pass_exact args_exact]. repeat split.
+      cbn [reorder_exact]. repeat split. compute_site_goal.
+      intros X C1 C2 HX HC1 HC2 Hf.
+      assert (E1 : evp "a" "12" (ECall 0 (EName 0 "int") [EField 4 ValueKW]) = Ok (VInt 12)) by reflexivity.
+      rewrite E1 in HX. injection HX as <-.
+      cbn [eval] in HC1, HC2. injection HC1 as <-. injection HC2 as <-. discriminate Hf.
+    + unfold ex_int. compute_optimize. cbn [pass_exact args_exact]. repeat split;
+        try (cbn [reorder_exact]; repeat split; try compute_site_goal; exact I).
+  - split; [vm_compute; reflexivity|]. split; vm_compute; reflexivity.
+Qed.
+
+(* (float(value) * 0.5) * 2.0  on the pair (b, 2.5): a float chain re-associated exactly *)
+Definition ex_flt : expr :=
+  EBin 21 OMul (EBin 13 OMul (ECall 0 (EName 0 "float") [EField 6 ValueKW]) (EFloat 15 "0.5")) (EFloat 23 "2.0").
+
+Lemma ex_flt_lemma :
+  wt ex_flt = true /\
+  reassoc_exact prim_fops re_none pf_fmt_v ex_flt "b" "2.5" /\
+  foldp ex_flt = EBin 21 OMul (ECall 0 (EName 0 "float") [EField 6 ValueKW]) (EFloat 15 "1") /\
+  canon_res (evp "b" "2.5" ex_flt) = Some (CFlt (pf_bits 2.5%float)) /\
+  canon_res (evp "b" "2.5" (foldp ex_flt)) = Some (CFlt (pf_bits 2.5%float)).
+Proof.
+  split; [reflexivity|]. split.
+  - split.
+    + unfold ex_flt. cbn [pass_exact args_exact]. repeat split.
+      cbn [reorder_exact]. repeat split. compute_site_goal.
+      intros X C1 C2 HX HC1 HC2 Hf.
+      assert (E1 : evp "b" "2.5" (ECall 0 (EName 0 "float") [EField 6 ValueKW])
+                   = Ok (VFlt (fo := prim_fops) 2.5%float)) by reflexivity.
+      assert (E2 : evp "b" "2.5" (EFloat 15 "0.5") = Ok (VFlt (fo := prim_fops) 0.5%float)) by reflexivity.
+      assert (E3 : evp "b" "2.5" (EFloat 23 "2.0") = Ok (VFlt (fo := prim_fops) 2%float)) by reflexivity.
+      rewrite E1 in HX. rewrite E2 in HC1. rewrite E3 in HC2.
+      injection HX as <-. injection HC1 as <-. injection HC2 as <-. reflexivity.
+    + unfold ex_flt. compute_optimize. cbn [pass_exact args_exact]. repeat split;
+        try (cbn [reorder_exact]; repeat split; try compute_site_goal; exact I).
+  - split; [vm_compute; reflexivity|]. split; vm_compute; reflexivity.
+Qed.
+
+(* (c < 2) & (key = 'a') *)
+Definition ex_and (c : string) : expr :=
+  EBin 8 OAnd (EBin 3 OLt (ENum 1 c) (ENum 5 "2"))
+              (EBin 15 OEq (EField 11 KeyKW) (EStr 17 "a")).
+
+Lemma ex_and_lemma :
+  wt (ex_and "1") = true /\
+  reassoc_exact prim_fops re_none pf_fmt_v (ex_and "1") "a" "12" /\
+  foldp (ex_and "1") = EBin 15 OEq (EField 11 KeyKW) (EStr 17 "a") /\
+  foldp (ex_and "3") = EBool 1 false /\
+  canon_res (evp "a" "12" (ex_and "1")) = Some (CBool true) /\
+  canon_res (evp "a" "12" (foldp (ex_and "1"))) = Some (CBool true) /\
+  canon_res (evp "a" "12" (ex_and "3")) = Some (CBool false) /\
+  canon_res (evp "a" "12" (foldp (ex_and "3"))) = Some (CBool false).
+Proof.
+  split; [reflexivity|]. split.
+  - split.
+    + unfold ex_and. cbn [pass_exact args_exact]. repeat split;
+        try (cbn [reorder_exact]; repeat split; try compute_site_goal; exact I).
+    + unfold ex_and. compute_optimize. cbn [pass_exact args_exact]. repeat split;
+        try (cbn [reorder_exact]; repeat split; try compute_site_goal; exact I).
+  - repeat split; vm_compute; reflexivity.
+Qed.
+
+Lemma ex_d14_lemma :
+  foldp (EBin 2 OMul (ENum 0 "3") (EFloat 4 "0.5")) = EFloat 0 "1.5".
+Proof. vm_compute. reflexivity. Qed.
+
+(* the typing premise [wt] cannot be dropped: (key + 1) + 2 -- which checker.go rejects: the
+   operands of + must be both text or both numbers -- is "k12" on the key "k", and is
+   rewritten to key + (1 + 2) = key + 3 = "k3" *)
+Definition untyped_expr : expr :=
+  EBin 8 OAdd (EBin 4 OAdd (EField 0 KeyKW) (ENum 6 "1")) (ENum 10 "2").
+
+Lemma untyped_refuted_lemma :
+  wt untyped_expr = false /\
+  foldp untyped_expr = EBin 8 OAdd (EField 0 KeyKW) (ENum 6 "3") /\
+  canon_res (evp "k" "v" untyped_expr) = Some (CText "k12") /\
+  canon_res (evp "k" "v" (foldp untyped_expr)) = Some (CText "k3").
+Proof. repeat split; vm_compute; reflexivity. Qed.
